@@ -146,7 +146,9 @@ def prepare(seed=0, need_native=True):
             os.replace(exp + '.tmp', exp)
         dj = os.path.join(SCRATCH, 'dfas.json')
         tables_tmp = os.path.join(SCRATCH, 'tables.rs')
-        if not os.path.exists(dj) or not os.path.exists(tables_tmp):
+        gen_key = h + ':' + hashlib.sha256(open(os.path.join(VERIF, 'engine_d', 'dfa.py'), 'rb').read()).hexdigest()
+        kp = os.path.join(SCRATCH, 'tables.key')
+        if not os.path.exists(dj) or not os.path.exists(tables_tmp) or not os.path.exists(kp) or open(kp).read() != gen_key:
             try:
                 dfas = dfa.extract(open(exp).read())
             except Exception as e:
@@ -158,6 +160,7 @@ def prepare(seed=0, need_native=True):
             open(tables_tmp, 'w').write(src)
             json.dump(info, open(os.path.join(SCRATCH, 'tables.info.json'), 'w'))
             dfa.save(dfas, dj)
+            open(kp, 'w').write(gen_key)
         ctx.dfas = dfa.load(dj)
         ctx.table_info = json.load(open(os.path.join(SCRATCH, 'tables.info.json')))
         # harness crate
@@ -327,7 +330,7 @@ def parse_kani_log(text, res):
 
 def native_replay(ctx, harness, hexvals, profile='dev'):
     exe = build_native(ctx, profile)
-    p = subprocess.run([exe, 'replay', harness, hexvals], text=True, capture_output=True, timeout=120)
+    p = subprocess.run([exe, 'replay', harness, hexvals], text=True, capture_output=True, timeout=120, env=dict(os.environ, RUST_BACKTRACE='0'))
     out = p.stdout
     m = re.search(r'RESULT (\w+)(.*)', out)
     covers = re.findall(r'COVER (.*)', out)
